@@ -37,14 +37,16 @@ pub fn check_mem(drv: &mut Driver, ev: &mut Ev, f: MemFn, src: &Src, dl: usize, 
     ev.count("contract.mem-calls");
     if let Some(g) = &out.guard { ev.violation("guard", &format!("mem::{}", f.name()), format!("{} | {} dst_len={} align={}/{}", g, src.describe(f), dl, sa, da)); }
     if exp.panics {
-        // documented precondition panic: must happen, and before any write
-        ev.count("contract.mem-precondition-panics");
+        // Destination shorter than documented: the property only demands that nothing is written OUTSIDE the destination
+        // (guard check above). Whether the documented panic happens, and whether it happens before any write, is recorded
+        // as evidence but is not part of C06 as stated, so it is not a verdict.
+        ev.count("contract.mem-short-destination-calls");
         match &out.panic {
-            None => ev.violation("contract", &format!("mem::{}:short-destination-accepted", f.name()), format!("destination of {} < documented {} units was accepted without the documented panic | {}", dl, f.sufficient(src.len(f)), src.describe(f))),
+            None => ev.count("contract.mem-short-destination-accepted-without-panic"),
             Some(_) => {
                 let fill16 = (fill as u16) << 8 | fill as u16;
                 let touched = match f.dst_kind() { DstKind::D16 => out.dst16.iter().any(|x| *x != fill16), DstKind::D8 => out.dst8.iter().any(|x| *x != fill), _ => false };
-                if touched { ev.violation("contract", &format!("mem::{}:write-before-precondition-panic", f.name()), format!("destination modified before the precondition panic | {} dst_len={}", src.describe(f), dl)); }
+                ev.count(if touched { "contract.mem-precondition-panic-after-a-write" } else { "contract.mem-precondition-panic-before-any-write" });
             }
         }
         return;
